@@ -122,18 +122,87 @@ def recombination_step_options(labels: A[i1, 2]) -> A[i1, 3]:
             lemma_recombination_reversible(labels, options[o], P, WA[o], WB[o])
 
 
-@contract("mchap.assemble.structural.dosage_step_options", trusted=True, props=["C01", "C09"])
+@spec_inline
+def DOSSW(O: A[int, 2], L: A[int, 2], P: int, a: int, b: int) -> bool:
+    """O is L with the interval label (column 0) of haplotype a overwritten by that of haplotype b; the two segments differ
+    and a's segment is not the only copy of that segment"""
+    return 0 <= a and a < P and 0 <= b and b < P and L[a, 0] != L[b, 0] and NEQ(L, a, 0, 1, P) >= 2 and forall(0, P, lambda h: O[h, 1] == L[h, 1] and O[h, 0] == ite(h == a, L[b, 0], L[h, 0]))
+
+
+@contract("mchap.assemble.structural.dosage_step_options", machine_ints=True, props=["C01", "C09"])
 def dosage_step_options(labels: A[i1, 2]) -> A[i1, 3]:
-    requires(labels.shape[1] == 2)
-    ensures(result.shape[1] == len(labels), result.shape[2] == 2)
-    ensures(forall(0, len(result), lambda i: DNOPT(result[i], len(labels)) >= 1))
+    requires(labels.shape[1] == 2, len(labels) >= 1, len(labels) <= 127)
+    requires(forall(0, len(labels), lambda h: 0 <= labels[h, 0] and labels[h, 0] < len(labels)))
+    ensures(result.shape[1] == len(labels), result.shape[2] == 2, len(result) == DNOPT(labels, len(labels)))
     ensures(forall(lambda i, h: implies(0 <= i and i < len(result) and 0 <= h and h < len(labels), 0 <= result[i, h, 0] and result[i, h, 0] < len(labels))))
+    # every option overwrites the interval segment of one haplotype (whose segment is not the last copy) by a different segment ...
+    ensures(forall(0, len(result), lambda i: exists(lambda a, b: DOSSW(result[i], labels, len(labels), a, b), witness=(WA[i], WB[i]))))
+    # ... and (lemma_dosage_reversible) can be undone
+    ensures(forall(0, len(result), lambda i: DNOPT(result[i], len(labels)) >= 1))
+    with defs():
+        P = len(labels)
+    with after_call("get_haplotype_dosage", 1):
+        with forall_intro(a, 0, P, segment_dosage[a] == DOSE(labels, a, 0, 1, P)):
+            lemma_neq_ext(get_haplotype_dosage_arg_genotype, labels, a, 0, 1, a)
+            lemma_neq_ext(get_haplotype_dosage_arg_genotype, labels, a, 0, 1, P)
+    with after_stmt("max_recievers = np.sum(segment_dosage[segment_dosage > 1])"):
+        lemma_msel_sum(msel_res0, segment_dosage, msel_mask0, P)
+        lemma_msum_is_mr(segment_dosage, msel_mask0, labels, P, P)
+    with before_stmt("max_donors = np.sum(segment_dosage > 0) - 1"):
+        lemma_mr_bound(labels, P, P)
+    with after_stmt("max_donors = np.sum(segment_dosage > 0) - 1"):
+        lemma_bcount_is_nsegf(cmp_res1, labels, P, P)
+        lemma_bcount_range(cmp_res1, 0, P)
+        lemma_dosage_options_bound(labels, P)
+        unfold(DNOPT(labels, P))
+        lemma_mul_bound(max_recievers, max_donors, 127 * 127, 127)
+    with loop(0):
+        invariant(0 <= i, i <= max_options, ploidy == P, options.shape == (max_options, P, 2))
+        invariant(forall(lambda o, h, c: implies(0 <= o and o < i and 0 <= h and h < P and 0 <= c and c < 2, options[o, h, c] == labels[h, c])))
+    with loop(1):
+        invariant(0 <= j, j <= P)
+        invariant(forall(lambda o, h, c: implies(0 <= o and o < i and 0 <= h and h < P and 0 <= c and c < 2, options[o, h, c] == labels[h, c])))
+        invariant(forall(lambda h, c: implies(0 <= h and h < j and 0 <= c and c < 2, options[i, h, c] == labels[h, c])))
+    with loop(2):
+        invariant(0 <= k, k <= 2)
+        invariant(forall(lambda o, h, c: implies(0 <= o and o < i and 0 <= h and h < P and 0 <= c and c < 2, options[o, h, c] == labels[h, c])))
+        invariant(forall(lambda h, c: implies(0 <= h and h < j and 0 <= c and c < 2, options[i, h, c] == labels[h, c])))
+        invariant(forall(0, k, lambda c: options[i, j, c] == labels[j, c]))
+    with after_stmt("opt = 0"):
+        unfold(DCNT(labels, P, 0))
+        WA = arr1(lambda t: 0)
+        WB = arr1(lambda t: 0)
+    with loop(3):
+        invariant(0 <= h_0, h_0 <= P, opt == DCNT(labels, P, h_0), 0 <= opt, DCNT(labels, P, P) <= max_options, options.shape == (max_options, P, 2))
+        invariant(forall(0, P, lambda a: haplotype_dosage[a] == DOSE(labels, a, 0, 2, P)), forall(0, P, lambda a: segment_dosage[a] == DOSE(labels, a, 0, 1, P)))
+        invariant(forall(lambda o, h, c: implies(opt <= o and o < max_options and 0 <= h and h < P and 0 <= c and c < 2, options[o, h, c] == labels[h, c])))
+        invariant(forall(0, opt, lambda o: DOSSW(options[o], labels, P, WA[o], WB[o])))
+        with head():
+            unfold(DCNT(labels, P, h_0 + 1))
+            unfold(DCIN(labels, P, h_0, 0))
+            lemma_dcnt_mono(labels, P, h_0 + 1, P)
+            lemma_mult_of_later_copy(labels, h_0, 0, 1, P)
+            lemma_neq_range(labels, h_0, 0, 1, h_0)
+    with loop(4):
+        invariant(0 <= h_1, h_1 <= P, opt == DCNT(labels, P, h_0) + DCIN(labels, P, h_0, h_1), 0 <= opt, options.shape == (max_options, P, 2))
+        invariant(forall(lambda o, h, c: implies(opt <= o and o < max_options and 0 <= h and h < P and 0 <= c and c < 2, options[o, h, c] == labels[h, c])))
+        invariant(forall(0, opt, lambda o: DOSSW(options[o], labels, P, WA[o], WB[o])))
+        with head():
+            unfold(DCIN(labels, P, h_0, h_1 + 1))
+            lemma_dcin_mono(labels, P, h_0, h_1 + 1, P)
+    with before_stmt("opt += 1"):
+        WA = arr1(lambda t: ite(t == opt, h_0, WA[t]))
+        WB = arr1(lambda t: ite(t == opt, h_1, WB[t]))
+    with before_stmt("return options[0:opt]"):
+        unfold(DNOPT(labels, P))
+        with forall_intro(o, 0, opt, DNOPT(options[o], P) >= 1):
+            lemma_dosage_reversible(labels, options[o], P, WA[o], WB[o])
 
 
 @spec
 def RCIN(L: A[int, 2], P: int, h0: int, m: int) -> int:
     """recombination partners of h0 among the haplotypes h0 < h1 < m: first copies that differ from h0 both inside and outside the interval"""
-    decreases(m)
+    decreases(m - h0)
     if m <= h0 + 1:
         return 0
     return RCIN(L, P, h0, m - 1) + ite(DOSE(L, m - 1, 0, 2, P) != 0 and L[h0, 0] != L[m - 1, 0] and L[h0, 1] != L[m - 1, 1], 1, 0)
